@@ -53,14 +53,15 @@ def work(item):
     iiT = T.bvvar('ii', 32)
     results = {}
     junkT = T.var('junk')
-    for which, hist in [(w, hh) for w in range(5) for hh in (0, 1, 2)]:
+    for which, hist in [(w, hh) for w in range(5) for hh in (0, 1, 2, 3)]:
         nm = NAMES[which]
         ps = h.run('h_factory', [I(which), I(d), I(iiT), Buf('o', n=n), I(hist), D(junkT)])
         exstats.append(h.last_ex.stats)
         if hist == 0:
             results[which] = ps
         good = True
-        hs = {0: '', 1: ' after a vector of the same dimension (all components = junk, symbolic) was destroyed', 2: ' after the same factory ran in dimension %d' % (d + 1 if d < 6 else d - 1)}[hist]
+        hs = {0: '', 1: ' after a vector of the same dimension (all components = junk, symbolic) was destroyed', 2: ' after the same factory ran in dimension %d' % (d + 1 if d < 6 else d - 1),
+              3: ' after an earlier result of the same call was overwritten in place (all components = junk, symbolic) by its owner'}[hist]
         for p in ps:
             if p.status != 'ok' or p.ret not in (0, 1):
                 if (p.info or {}).get('kind') == 'uninit':
